@@ -51,6 +51,7 @@ type vfC05Caller struct {
 	Cancel      time.Duration // 0 = never
 	Timeout     time.Duration // 0 = none (DialPeer's own timeout applies)
 	ForceDirect bool
+	SimConnect  bool // hole-punch style caller (simultaneous connect: no ranking delay)
 }
 
 type vfC05CloseEv struct {
@@ -215,6 +216,7 @@ func vfC05Gen(seed int64, idx int) *vfC05Scenario {
 			c.Timeout = ms(50 + rnd.Intn(900))
 		}
 		c.ForceDirect = rnd.Intn(5) == 0
+		c.SimConnect = rnd.Intn(4) == 0
 		if rnd.Intn(4) == 0 {
 			c.Start += ms(20000 + rnd.Intn(3000)) // a later generation (after the dial timeout of the first)
 		}
@@ -284,6 +286,9 @@ func vfC05Execute(t *testing.T, sc *vfC05Scenario, tr *vfh.Trace) {
 			defer cancel()
 			if c.ForceDirect {
 				ctx = network.WithForceDirectDial(ctx, "verif")
+			}
+			if c.SimConnect {
+				ctx = network.WithSimultaneousConnect(ctx, c.Name != "c1", "verif")
 			}
 			dl := int64(0)
 			if c.Timeout > 0 {
